@@ -232,7 +232,11 @@ def run_case(case):
         contention.setdefault(lock, set()).add(name)
         gave_up.discard((name, lock))
         core.CLOCK.active = name
-        sim.call(name, lambda: sim.nodes[name].mgr.tryAcquire(lock, callback=lambda r, e, rec=rec: rec['cbs'].append((r, e, Wall.t))))
+        def cb(r, e, rec=rec):
+            rec['cbs'].append((r, e, Wall.t))
+            if not r and not any(r2 is not rec and r2['client'] == rec['client'] and r2['lock'] == rec['lock'] and r2['t'] >= rec['t'] for r2 in attempts):
+                gave_up.add((rec['client'], rec['lock']))      # told "not acquired" (e.g. too late): it does not consider the lock its own
+        sim.call(name, lambda: sim.nodes[name].mgr.tryAcquire(lock, callback=cb))
         return (name, lock)
 
     def op_release(a, b, c):
